@@ -28,8 +28,8 @@ def run(ctx):
         libs=["TFELMaterial", "TFELMath", "TFELException"], build=("TFELMaterial",),
         rule="12 criteria x 53 parameter sets (isotropic limits of the orthotropic criteria, admissible extremes of c, exponents "
              "1, 2, 5/2, 3, 4, 6, 8, 100, porosities below / above the coalescence threshold) x every diagonal stress over -2..2 in 1D, "
-             "diagonal x in-plane shear lattices in 2D, diagonal x 5 (quick) or 8 (thorough) shear patterns in 3D, probe stresses "
-             "at binary scales 2^30 and 2^-20, and nearly coincident principal stresses (gaps 2^-20 and 2^-45) for the eigen-based "
+             "diagonal over {-1,0,2} (quick) / -2..2 (thorough) x in-plane shear in 2D, diagonal over {-1,0,2} x 5 (quick) / 8 (thorough) shear "
+             "patterns in 3D, probe stresses at binary scales 2^30, 2^-20 (thorough: also 2^+-10), and nearly coincident principal stresses (gaps 2^-20, 2^-45; thorough also 2^-30) for the eigen-based "
              "criteria; each case also replays its symmetry group and three rescalings; non-trivial = non-hydrostatic stress",
         nontrivial=lambda c: len(set(c["s"][:3])) > 1 or any(c["s"][3:]),
         describe=describe,
